@@ -7,7 +7,7 @@ from hypothesis import strategies as st
 from .. import gen, norm
 from ..common import lib
 from ..core import require
-from ..spec import build, eval_q, kinds, make_callable
+from ..spec import build, eval_q, kinds, make_callable, walk_spec
 
 ID = "C12"
 BUDGET = {"quick": (4, 500), "thorough": (16, 6000)}
@@ -29,7 +29,7 @@ ASSUMPTIONS = [
     "toJson() exposes all content, including empty bins left behind",
 ]
 
-SINGLE_PATH = ("Bin", "SparselyBin", "CentrallyBin", "IrregularlyBin", "Categorize", "Select") + gen.LEAF_KINDS
+SINGLE_PATH = ("Bin", "SparselyBin", "SparselyBin", "CentrallyBin", "IrregularlyBin", "Categorize", "Categorize", "Select") + gen.LEAF_KINDS
 MODES = ("raise", "wrong-a", "wrong-b", "wrong-c")
 
 
@@ -44,10 +44,13 @@ def strategy(tier):
         rows = []
         for r, w in stream:
             r = dict(r)
-            if draw(st.integers(0, 3)) == 0:
-                r["fail_at"] = draw(st.integers(0, opts.max_depth - 1))
+            if draw(st.integers(0, 2)) == 0:
+                r["fail_at"] = draw(st.sampled_from((0, 1, 1, 2, 2, 3)[: 2 * opts.max_depth - 2]))
                 r["fail_mode"] = draw(st.sampled_from(MODES))
             rows.append([r, w])
+            if draw(st.integers(0, 9)) == 0:
+                # the aggregator under test need not be a freshly built one: replace it by a derived object
+                rows.append(["@op", draw(st.sampled_from(("copy", "plus-zero", "zero-plus", "times1")))])
         return {"spec": spec, "stream": rows}
 
     return cases()
@@ -128,7 +131,26 @@ def check(case):
     successes = 0
     nontrivial = False
     nfaults = 0
+    derived = 0
     for i, (row, w) in enumerate(case["stream"]):
+        if row == "@op":
+            objs = []
+            for o in (h, twin):
+                if w == "copy":
+                    o = o.copy()
+                elif w == "plus-zero":
+                    o = o + o.zero()
+                elif w == "zero-plus":
+                    o = o.zero() + o
+                elif not any(s_["k"] == "Count" and s_.get("transform") for _, s_ in walk_spec(spec)):
+                    o = o * 1.0
+                objs.append(o)
+            h, twin = objs
+            after = norm.norm(h.toJson())
+            d = norm.diff(before, after, norm.BITEXACT)
+            require(not d, "derivation-changed-content", lambda: f"step {i}: {w} changed the content: {norm.fmt(d)}")  # noqa: B023
+            derived += 1
+            continue
         fails, sparse = reached(spec, row, w)
         raised = None
         try:
@@ -157,5 +179,5 @@ def check(case):
         before = after
     d = norm.diff(norm.norm(twin.toJson()), before, norm.BITEXACT)
     require(not d, "survivors-differ", lambda: f"aggregate differs from a twin fed only the surviving records: {norm.fmt(d)}")
-    labels = ["kind:" + k for k in kinds(spec)] + [f"faults:{min(nfaults, 3)}{'+' if nfaults > 3 else ''}"]
+    labels = ["kind:" + k for k in kinds(spec)] + [f"faults:{min(nfaults, 3)}{'+' if nfaults > 3 else ''}"] + (["derived-object"] if derived else [])
     return {"nontrivial": nontrivial, "labels": labels}
